@@ -29,11 +29,13 @@ MaxLen(codes) == MaxOf(Range(Lens(codes)))
 
 AllNonEmptyBits(codes) == \A j \in 1..Len(codes) : Len(codes[j]) >= 1 /\ IsBits(codes[j])
 Distinct(codes) == Cardinality(Range(codes)) = Len(codes)
-(* no code is a proper prefix of another one: every proper prefix of every code is *)
-(* not itself a code (set membership: n * len tests instead of n * n comparisons)  *)
-PrefixFree(codes) ==
-    LET S == Range(codes) IN
-    \A j \in 1..Len(codes) : \A k \in 0..(Len(codes[j]) - 1) : SubSeq(codes[j], 1, k) \notin S
+(* no code is a proper prefix of another one: the set of all proper prefixes of all codes  *)
+(* (the inner nodes of the code tree) and the set of codes (its leaves) are disjoint.       *)
+(* (One set intersection: TLC sorts both sets once; a membership test per prefix against    *)
+(* the unsorted code set cost 70 ms per 256-symbol table.)                                   *)
+ProperPrefixes(codes) ==
+    UNION { { SubSeq(codes[j], 1, k) : k \in 0..(Len(codes[j]) - 1) } : j \in 1..Len(codes) }
+PrefixFree(codes) == ProperPrefixes(codes) \cap Range(codes) = {}
 
 (* Kraft inequality  SUM 2^-len <= 1  without big numbers (code lengths reach 64):  *)
 (* pack the leaves bottom-up; at depth l there are the codes of length l plus the   *)
@@ -41,17 +43,19 @@ PrefixFree(codes) ==
 (* binary tree iff at most one node is left at depth 0.  Equality (a complete code) *)
 (* iff every level pairs up exactly and exactly one node is left.                   *)
 Cnt(lens, l) == Cardinality({ j \in 1..Len(lens) : lens[j] = l })
+(* hist[l + 1] = number of codes of length l, for l = 0..maxlen, computed once *)
+LenHist(lens) == LET L == MaxOf(Range(lens)) IN [l1 \in 1..(L + 1) |-> Cnt(lens, l1 - 1)]
 RECURSIVE NodesAt(_, _, _)
-NodesAt(lens, l, carry) ==
-    IF l = 0 THEN carry + Cnt(lens, 0)
-    ELSE NodesAt(lens, l - 1, (Cnt(lens, l) + carry + 1) \div 2)
-KraftLeq(lens) == NodesAt(lens, MaxOf(Range(lens)), 0) <= 1
+NodesAt(hist, l, carry) ==
+    IF l = 0 THEN carry + hist[1]
+    ELSE NodesAt(hist, l - 1, (hist[l + 1] + carry + 1) \div 2)
+KraftLeq(lens) == LET hist == LenHist(lens) IN NodesAt(hist, Len(hist) - 1, 0) <= 1
 RECURSIVE PairsUp(_, _, _)
-PairsUp(lens, l, carry) ==
-    IF l = 0 THEN carry + Cnt(lens, 0) = 1
-    ELSE /\ (Cnt(lens, l) + carry) % 2 = 0
-         /\ PairsUp(lens, l - 1, (Cnt(lens, l) + carry) \div 2)
-KraftEq(lens) == PairsUp(lens, MaxOf(Range(lens)), 0)
+PairsUp(hist, l, carry) ==
+    IF l = 0 THEN carry + hist[1] = 1
+    ELSE /\ (hist[l + 1] + carry) % 2 = 0
+         /\ PairsUp(hist, l - 1, (hist[l + 1] + carry) \div 2)
+KraftEq(lens) == LET hist == LenHist(lens) IN PairsUp(hist, Len(hist) - 1, 0)
 (* the direct form, usable while 2^maxlen fits an integer (checked equivalent by MC_PrefixCode) *)
 RECURSIVE Pow2(_)
 Pow2(n) == IF n = 0 THEN 1 ELSE 2 * Pow2(n - 1)
